@@ -9,6 +9,7 @@ import UberjobModel.Model.PlanDrv
 import UberjobModel.Model.SmallDrv
 import UberjobModel.Model.CacheDrv
 import UberjobModel.Model.Notify
+import UberjobModel.Model.Queues
 import UberjobModel.Model.ProgressDrv
 import UberjobModel.Model.PhysDrv
 /-!
@@ -124,6 +125,7 @@ def step (c : Ctx) (line : String) : Ctx × String :=
   | "progress" :: _ => (c, Uberjob.Progress.drv line)
   | "phys" :: _ => (c, Uberjob.Phys.drv line)
   | "notifs" :: _ => (c, Notify.drv line)
+  | "rq" :: _ => (c, Queues.drv line)
   | "cplan" :: _ => let (d, r) := Cache.drv c.cache line; ({ c with cache := d }, r)
   | "cop" :: _ => let (d, r) := Cache.drv c.cache line; ({ c with cache := d }, r)
   | "cstale" :: _ => (c, (Cache.drv c.cache line).2)
